@@ -112,3 +112,17 @@ Example check_M_panic :
              zobs false [1] [1] 1 [11] true true true;
              zobs true [] [] 0 [] false false false ]) = true.
 Proof. vm_compute. reflexivity. Qed.
+
+(* the 8th field is computed after every operation over all handles handed out so far: a Clear that
+   leaves the links of the dropped nodes in place (as xlist.go did before the repair) is recorded by the
+   harness with [false] there, which the model of the repaired code does not reproduce *)
+Example check_M_rejects_links_kept_by_clear :
+  check_M ([ LPushBack 10; LPushBack 11; LClear ],
+           [ zobs false [0] [0] 1 [10] true true true;
+             zobs false [0;1] [1;0] 2 [10;11] true true true;
+             zobs false [] [] 0 [] true true false ]) = false
+  /\ obss_eqb (run_original [ LPushBack 10; LPushBack 11; LClear ])
+              [ zobs false [0] [0] 1 [10] true true true;
+                zobs false [0;1] [1;0] 2 [10;11] true true true;
+                zobs false [] [] 0 [] true true false ] = true.
+Proof. vm_compute. split; reflexivity. Qed.
